@@ -686,6 +686,14 @@ func (e *Engine) FactsAt(b *ssa.BasicBlock, idx int) []Fact {
 // rely on a callee post-condition are kept only if the callee's error was
 // known to be nil where the condition was evaluated.
 func (e *Engine) branchFact(f kit.Fact) []Fact {
+	// library post-conditions of predicates: a true bytes.HasPrefix / HasSuffix / strings.HasPrefix
+	// means the subject is at least as long as the affix
+	if call, isCall := f.Cond.(*ssa.Call); isCall && f.Pol {
+		switch kit.CalleeName(call) {
+		case "bytes.HasPrefix", "bytes.HasSuffix", "strings.HasPrefix", "strings.HasSuffix":
+			return []Fact{{e.LenOf(call.Call.Args[0]).Sub(e.LenOf(call.Call.Args[1])), "library post-condition: " + kit.CalleeName(call) + " is true only if the subject is at least as long as the affix (" + e.P.Pos(f.If.Pos()) + ")"}}
+		}
+	}
 	c, ok := kit.CanonCmp(f.Cond, f.Pol)
 	if !ok {
 		return nil
